@@ -93,6 +93,17 @@ def check_parser(P, R):
     forms = {'suffix': False, 'open': False, 'closed': False}
     unp = [st for st in walk_shallow(f.node) if isinstance(st, ast.Assign) and isinstance(st.targets[0], ast.Tuple) and len(st.targets[0].elts) == 2
            and isinstance(st.value, ast.Call) and call_attr(st.value) == 'split']
+    part3 = [st for st in walk_shallow(f.node) if isinstance(st, ast.Assign) and isinstance(st.targets[0], ast.Tuple) and len(st.targets[0].elts) == 3
+             and isinstance(st.value, ast.Call) and call_attr(st.value) in ('partition', 'rpartition') and st.value.args and is_const(st.value.args[0], '-')]
+    if not unp and part3:
+        # start, sep, end = spec.partition('-'): unlike the two-name unpacking of split('-') this never fails, so a spec without '-' must be refused explicitly
+        st3 = part3[0]
+        sep_t = st3.targets[0].elts[1]
+        tested = isinstance(sep_t, ast.Name) and any(n.kind == 'test' and sep_t.id in names_loaded(n.ast) for n in g.nodes)
+        R.ob('C17.b', f, st3, tested, text=f'{short(st3)}: a spec without "-" is refused', detail='' if tested else
+             'partition() never fails: a range spec without any "-" (`bytes=5`) is taken for the open range `5-` and answered 206 instead of 416',
+             why='a junk Range header must give 416', key_extra='partition-sep')
+        unp = [ast.Assign(targets=[ast.Tuple(elts=[st3.targets[0].elts[0], st3.targets[0].elts[2]], ctx=ast.Store())], value=st3.value)]
     R.require(unp, 'get_first_range: `start, end = <range>.split("-")` not found')
     sname, ename = [e.id for e in unp[0].targets[0].elts]
     for st in walk_shallow(f.node):
@@ -343,6 +354,12 @@ def check_static_file(P, R):
                 vals_ok = bool(defs)
                 why = ''
                 for d in defs:
+                    if isinstance(d.value, ast.IfExp):
+                        cl_t = rd.closure_nodes(d.value.test, d.node)
+                        hdrs = sorted({x.value for x in cl_t if isinstance(x, ast.Constant) and isinstance(x.value, str) and x.value.startswith('HTTP_')} - {'HTTP_IF_MODIFIED_SINCE'})
+                        R.ob('C17.f', f, d.value.test, not hdrs, text=f'whether the date is parsed depends on the If-Modified-Since value alone: `{short(d.value.test)}`',
+                             detail='' if not hdrs else f'the conditional check is skipped depending on {hdrs}: a request that carries a date not older than the file '
+                             f'(together with that header) is answered 200 / 206 instead of 304', why='a date not older than the file must yield 304', key_extra='ims-only')
                     if not value_is_none_or_parsed(d.value):
                         vals_ok = False
                         why = f'`{ims.id}` may still hold `{short(d.value) if d.value is not None else d.kind}` (a str such as the empty header value) at the comparison'
@@ -361,6 +378,15 @@ def check_static_file(P, R):
                       'echoing Last-Modified gets 200 instead of 304' if mt and not whole else
                       'the comparison is not `date >= int(st_mtime)`'),
                      why='a date not older than the file must yield 304', key_extra='whole')
+    # the Content-Length announced for a HEAD answer (whole file or slice) survives the framework's handling of the empty body
+    cast_ = P.func('ombott.ombott:Ombott._cast')
+    for st_ in walk_shallow(cast_.node):
+        if isinstance(st_, ast.Assign) and any(isinstance(t_, ast.Subscript) and is_const(t_.slice, 'Content-Length') for t_ in st_.targets):
+            R.ob('C17.e', cast_, st_, False, detail='_cast overwrites a Content-Length the handler announced (setdefault only fills it in): the HEAD answer of a file '
+                 'reports Content-Length: 0 while GET reports the file length', why='HEAD answers carry the same headers as GET', key_extra='cl-overwrite')
+    sd_ = [c_ for c_ in walk_shallow(cast_.node) if isinstance(c_, ast.Call) and call_attr(c_) == 'setdefault' and c_.args and is_const(c_.args[0], 'Content-Length')]
+    R.ob('C17.e', cast_, sd_[0] if sd_ else cast_.node, bool(sd_), text='_cast only fills in a missing Content-Length (setdefault)', detail='' if sd_ else
+         '_cast does not default the Content-Length', nontrivial=False)
     # HEAD -> empty body
     heads = [n for n in walk_shallow(f.node) if isinstance(n, ast.IfExp) and any(
         isinstance(x, ast.Constant) and x.value == 'HEAD' for x in ast.walk(n.test))]
